@@ -2,10 +2,7 @@ module verif
 
 go 1.26.8
 
-require (
-	golang.org/x/sys v0.48.0
-	golang.org/x/tools v0.50.0
-)
+require golang.org/x/tools v0.50.0
 
 require (
 	golang.org/x/mod v0.41.0 // indirect
